@@ -109,11 +109,21 @@ func sameUpToRespelling(e, c string) (bool, string) {
 const c20Alpha = "$,=_09aA"
 
 func editCases(rep *report, r *rng, tc codecCase, s string, unmarshalCase func(codecCase, string, string) (reflect.Value, error, interface{})) {
-	if len(s) > 90 || rep.Distribution["edit_bases"] != nil && rep.Distribution["edit_bases"].(int) >= rep.Distribution["edit_budget"].(int) {
+	// the budget of edit bases is split between the kinds of layout (wild, class, nested, hand, shipped), so that the
+	// layouts the property oracle speaks for are never starved by the ones generated first
+	kind := "edit_bases_" + tc.tname[:1]
+	share := map[string]int{"W": 20, "K": 45, "N": 10, "H": 5, "S": 20}[tc.tname[:1]]
+	if len(s) > 90 || rep.Distribution[kind] != nil && rep.Distribution[kind].(int) >= rep.Distribution["edit_budget"].(int)*share/100 {
 		return
 	}
+	rep.bump(kind)
 	rep.bump("edit_bases")
-	seen := map[string]bool{s: true}
+	editCasesOf(rep, r, tc, s, unmarshalCase, true)
+}
+
+// editCasesOf: judge s itself (when it does not come from Marshal) and, if withEdits, its neighbourhood
+func editCasesOf(rep *report, r *rng, tc codecCase, s string, unmarshalCase func(codecCase, string, string) (reflect.Value, error, interface{}), withEdits bool) {
+	seen := map[string]bool{s: withEdits}
 	try := func(e, kind string) {
 		if seen[e] {
 			return
@@ -136,14 +146,17 @@ func editCases(rep *report, r *rng, tc codecCase, s string, unmarshalCase func(c
 		if merr != nil || mpan != nil {
 			// the value Unmarshal returned is not one Marshal would write: only possible for text types / prefixes the
 			// layout cannot re-emit; reported when the layout is in the class
-			if tc.class {
+			if tc.class && !tc.noC20 {
 				rep.fail(map[string]interface{}{"type": tc.t.String(), "accepted": e}, "Marshal accepts the value Unmarshal returned", fmt.Sprint(merr, mpan), "accepted string has no canonical marshalling")
+			} else if lastCaseMeta != nil && lastCaseMeta["hash"] == e {
+				// search support (see below): counts only if the implementation disagrees with the model on this string
+				lastCaseMeta["property_fails"] = fmt.Sprintf("accepted %q, but Marshal rejects the value Unmarshal returned (%v %v): the string is not what Marshal would have written", e, merr, mpan)
 			}
 			return
 		}
 		// the oracle speaks for layouts in the unambiguous class and for the shipped structs (outside it the
 		// textual ambiguities of DESIGN.md 5.2 apply; those strings are still compared with the model)
-		if !(tc.class || strings.HasPrefix(tc.tname, "S")) {
+		if !(tc.class && !tc.noC20 || strings.HasPrefix(tc.tname, "S")) {
 			// search support: recorded with the case; it becomes the concrete failing input if, and only if, the
 			// implementation disagrees with the model on this very string
 			if ok, why := sameUpToRespelling(e, c); !ok && lastCaseMeta != nil && lastCaseMeta["hash"] == e {
@@ -155,6 +168,10 @@ func editCases(rep *report, r *rng, tc codecCase, s string, unmarshalCase func(c
 			rep.fail(map[string]interface{}{"type": tc.t.String(), "accepted": e, "canonical": c}, "equal up to the tolerated respellings", why, "Unmarshal accepted a string that is not a respelling of what Marshal writes")
 		}
 	}
+	if !withEdits {
+		try(s, "layout_driven")
+		return
+	}
 	for i := 0; i <= len(s); i++ {
 		for k := 0; k < len(c20Alpha); k++ {
 			try(s[:i]+string(c20Alpha[k])+s[i:], "insert")
@@ -164,6 +181,16 @@ func editCases(rep *report, r *rng, tc codecCase, s string, unmarshalCase func(c
 			for k := 0; k < len(c20Alpha); k++ {
 				try(s[:i]+string(c20Alpha[k])+s[i+1:], "substitute")
 			}
+		}
+	}
+	// edits at the level of fragments and group members (dropped, doubled, swapped, rotated, re-keyed)
+	for _, e := range structuralEdits(s) {
+		try(e, "structural")
+	}
+	// 8-bit bytes and UTF-8 sequences in place of every symbol
+	for i := 0; i < len(s); i++ {
+		for _, hi := range []string{"\xe9", "\xc3\xa9", "\x80"} {
+			try(s[:i]+hi+s[i+1:], "substitute_8bit")
 		}
 	}
 	// structural splices
